@@ -7,7 +7,7 @@
 (*   label = [0; num_classes + 1]            -- last bucket = noise        *)
 (*   for nb in neighbors: label[ y[nb] < 0 ? num_classes : y[nb] ] += 1    *)
 (*   class = which_max(label)                -- FIRST index of the maximum *)
-(*   result = class != num_classes ? class : -1                            *)
+(*   result = (class != num_classes && label[class] > 0) ? class : -1      *)
 (*                                                                         *)
 (* The model is independent of `fit`: the fitted labelling is ANY          *)
 (* labelling that satisfies IsDensityClustering for the data (enumerated   *)
@@ -15,16 +15,21 @@
 (*   "for every data set, every density-based clustering of it and every   *)
 (*    query row, the vote returns a label PredictOK accepts".              *)
 (*                                                                         *)
-(* Mode = "intended": a row without any training point within eps is       *)
-(*                    labelled noise before the vote -- PredictOK holds    *)
-(*                    (DbscanPredictMC_*.cfg, run by the check).           *)
-(* Mode = "ascoded" : the code as it is today.  TLC finds the counter-     *)
-(*                    example of the known finding at design level: with   *)
-(*                    an empty neighbourhood every bucket is 0, which_max  *)
-(*                    returns bucket 0, and bucket 0 is a cluster whenever *)
-(*                    num_classes >= 1 (DbscanPredict_ascoded.cfg is       *)
-(*                    EXPECTED TO FAIL with PredictEmptyIsNoise; it is not *)
-(*                    part of the check).                                  *)
+(* Mode = "guarded"  : the code as it is (since fix 7f8bc2c): a winning    *)
+(*                     bucket with zero votes -- i.e. no training point    *)
+(*                     within eps -- means noise.  PredictOK holds         *)
+(*                     (DbscanPredictMC_*.cfg, run by the check).          *)
+(* Mode = "unguarded": the regression shape, i.e. the vote without the     *)
+(*                     `label[class] > 0` guard, as the code was before    *)
+(*                     7f8bc2c.  With an empty neighbourhood every bucket  *)
+(*                     is 0, which_max returns bucket 0, and bucket 0 is a *)
+(*                     cluster whenever num_classes >= 1: TLC reports the  *)
+(*                     counterexample (pts = <<0>>, y = <<0>>, q = 2,      *)
+(*                     out = 0).  DbscanPredict_unguarded_regression.cfg   *)
+(*                     is EXPECTED TO FAIL with PredictEmptyIsNoise and is *)
+(*                     not part of the check; it documents what the        *)
+(*                     EmptyNbhdNotNoise clause of the trace spec guards   *)
+(*                     against.                                            *)
 (***************************************************************************)
 EXTENDS DbscanProps
 
@@ -73,8 +78,9 @@ WhichMax(v) == CHOOSE b \in DOMAIN v : /\ \A c \in DOMAIN v : v[c] <= v[b]
                                        /\ \A c \in DOMAIN v : c < b => v[c] < v[b]
 
 Pick == /\ pc = "pick"
-        /\ out' = IF Mode = "intended" /\ QueryNb(pts, Key, eps, q) = {} THEN -1
-                  ELSE IF WhichMax(label) # k + 1 THEN WhichMax(label) - 1 ELSE -1
+        /\ out' = IF /\ WhichMax(label) # k + 1
+                     /\ (Mode = "unguarded" \/ label[WhichMax(label)] > 0)
+                  THEN WhichMax(label) - 1 ELSE -1
         /\ pc' = "done"
         /\ UNCHANGED <<pts, eps, minPts, y, k, q, label>>
 
